@@ -59,4 +59,14 @@ structure WellBehavedLayer (A : Arith) (h : SM) where
     ∃ msgs' vars', A.layerRule (rcv.getD c []) vars = some (msgs', vars') ∧
       msgs'.map Prod.fst = h.row c ∧ vars'.length = vars.length ∧ okState (rcv.set c msgs') vars'
 
+/-- The weakest contract under which a decoder object still carries no state: on the message lists that can arise at
+the nodes of `h`, a rule either PANICS or emits exactly one message per incoming message, addressed to its source (as
+a permutation).  No invariant on the values, no promise of success — met by all 36 implementations' models, including
+the float A-Min* rules that panic on NaN. -/
+structure PanicOrBehaved (A : Arith) (h : SM) : Prop where
+  check_ok : ∀ c, c < h.nrows → ∀ msgs : List (Nat × A.VarMsg), msgs.map Prod.fst = h.row c →
+    ∀ out, A.checkRule msgs = some out → (out.map Prod.fst).Perm (msgs.map Prod.fst)
+  var_ok : ∀ v, v < h.ncols → ∀ (llr : A.Llr) (msgs : List (Nat × A.CheckMsg)), msgs.map Prod.fst = h.col v →
+    ∀ l out, A.varRule llr msgs = some (l, out) → (out.map Prod.fst).Perm (msgs.map Prod.fst)
+
 end LdpcV
